@@ -76,9 +76,36 @@ class _Fail(Exception):
     pass
 
 
+def _start_line_coverage():
+    """VERIF_COV=<dir>: record which lines of gbasis the shard executes (a reading aid for blind spots, not a verdict)."""
+    import sys as _s
+
+    from vf.core import REPO
+
+    root = os.path.join(os.path.realpath(REPO), "gbasis") + os.sep
+    seen = set()
+    mon = _s.monitoring
+    tool = mon.COVERAGE_ID
+    try:
+        mon.use_tool_id(tool, "vf-cov")
+    except ValueError:
+        pass
+
+    def on_line(code, line):
+        fn = code.co_filename
+        if fn.startswith(root) or os.path.realpath(fn).startswith(root):
+            seen.add((fn[len(root):] if fn.startswith(root) else os.path.realpath(fn)[len(root):], line))
+        return mon.DISABLE
+
+    mon.register_callback(tool, mon.events.LINE, on_line)
+    mon.set_events(tool, mon.events.LINE)
+    return seen
+
+
 def run_shard(args):
     prop, sub_name, shard, seed, tier = args
     t0 = time.time()
+    cov = _start_line_coverage() if os.environ.get("VERIF_COV") else None
     res = {
         "sub": sub_name,
         "shard": shard.get("id"),
@@ -199,6 +226,10 @@ def run_shard(args):
         if isinstance(e, KeyboardInterrupt):
             raise
         res["error"] = "".join(traceback.format_exception(type(e), e, e.__traceback__))[-4000:]
+    if cov is not None:
+        os.makedirs(os.environ["VERIF_COV"], exist_ok=True)
+        with open(os.path.join(os.environ["VERIF_COV"], f"{prop}-{sub_name}-{shard.get('id')}.json"), "w") as fh:
+            json.dump(sorted(cov), fh)
     res["nontrivial"] = sorted(res["nontrivial"])
     res["classes"] = dict(res["classes"])
     res["samples"] = list(res["samples"].values())
